@@ -27,6 +27,7 @@ func (n *Node) Diff(n2 *Node) *NodeDiff {
 
 	if n.Type != n2.Type {
 		nd.Added.Type = n2.Type
+		nd.Removed.Type = n.Type
 		nd.DiffCount++
 	}
 
